@@ -32,14 +32,14 @@ for p in props:
     for r in range(2, int(rnd)):
         for v in 'AB':
             d = f'/tmp/seed{r}-{pid}/{v}'
-            if os.path.exists(os.path.join(d, 'patch.diff')) and not os.path.isdir(f'/verif/seeded/{pid}-' + 'ABCDEFGHIJKLMN'[(r - 1) * 2 + 'AB'.index(v)]):
+            if os.path.exists(os.path.join(d, 'patch.diff')) and not os.path.isdir(f'/verif/seeded/{pid}-' + 'ABCDEFGHIJKLMNOPQR'[(r - 1) * 2 + 'AB'.index(v)]):
                 t = title(os.path.join(d, 'notes.md'))
                 touched = sorted(set(re.findall(r'^\+\+\+ b/(\S+)', open(os.path.join(d, 'patch.diff')).read(), re.M)))
                 earlier.append(f" - {t or d} (touched {', '.join(touched)})")
     wt = f'/tmp/wt{rnd}-{pid}'
     od = f'/tmp/seed{rnd}-{pid}'
     quant = p.get('quantifier') or p.get('quantification') or ''
-    PREF = {'4': PREF4, '5': PREF5, '6': PREF6, '7': PREF7}.get(rnd, PREF3)
+    PREF = {'4': PREF4, '5': PREF5, '6': PREF6, '7': PREF7, '8': PREF7}.get(rnd, PREF3)
     text = f"""You are helping to evaluate a verification effort for the open-source ZX Spectrum emulator "rustzx" (Rust workspace: rustzx-z80 CPU core, rustzx-core machine, aym AY chip, vtx player, rustzx-utils, rustzx-test integration tests). Your job is to play the role of a developer who introduces a REALISTIC, SUBTLE BUG that breaks ONE stated semantic property while everything still compiles and the existing test suite still passes.
 
 Work ONLY inside your own git worktree of the repository: {wt} (a detached checkout of the current code; it has its own build directory). You may read and edit anything inside it. You must NOT read, list or touch /verif, /repo, other /tmp/wt* directories or /tmp/seed* directories of other properties - your result has to be independent of any existing checking machinery. No network is available; always pass --offline to cargo. NEVER use `git stash` (the stash is shared between all worktrees of the repository and other agents are working in parallel): to switch between the unmodified and the modified tree use `git diff > /tmp/seed{rnd}-{pid}/work.patch; git checkout -- .; git apply /tmp/seed{rnd}-{pid}/work.patch`.
